@@ -174,6 +174,11 @@ class World:
     shape_y = (b,) if self.group == mg.CLS else (b, L)
     y = rng.randint(0, C, size=shape_y).astype(np.int32)
     p = (rng.randn(*(shape_y + (C,))) * 3 + rng.choice([-7.0, 7.0])).astype(np.float32)
+    if rng.rand() < 0.3:
+      # finite but extreme logits (still finite after the model's x2 scale): the per-example loss of such a padded row
+      # overflows to inf inside the metric, which a correct mask (a select, not an arithmetic blend) must discard.
+      p = rng.choice(np.array([-1.6e38, 1.6e38], np.float32), size=shape_y + (C,)).astype(np.float32)
+      self.extreme_garbage = getattr(self, 'extreme_garbage', 0) + 1
     d = rng.randint(0, D, size=b).astype(np.int32)
     return y, p, d
 
